@@ -531,3 +531,126 @@ def run(ctx):  # noqa: F811
     r06_6(ctx)
     r06_7(ctx)
     r06_8(ctx)
+
+
+def r06_9(ctx):
+    """integrals and means carry the volume factors: two-pixel symbolic reading of the Field methods"""
+    from .c03 import _load_sympy
+    m = ctx.model
+    F = m.cls(FLD, "Field")
+    ctx.rule("R06.9", "volume-weighted reductions of Field, read on a two-pixel field (x1, x2) with pixel volumes (v1, v2): integrate / "
+                      "s_integrate = v1 x1 + v2 x2 and mean / s_mean = (v1 x1 + v2 x2)/(v1 + v2), in the general branch and - with "
+                      "v1 = v2 = w - in the shortcut for uniform volumes (scalar_weight not None); sympy as term normaliser", floor=8)
+    sp = _load_sympy()
+    if sp is None:
+        ctx.und("R06.9", f"{F.key}::volume-weighted reductions", "sympy unavailable", F)
+        return
+    x = sp.symbols("x1 x2", real=True)
+    v = sp.symbols("v1 v2", positive=True)
+    w = sp.Symbol("w", positive=True)
+
+    class NU(Exception):
+        pass
+
+    class Vec(tuple):
+        pass
+
+    def run(fi, uniform, depth=0):
+        vol = (w, w) if uniform else v
+        env = {}
+
+        def ev(e):
+            if isinstance(e, ast.Constant) and isinstance(e.value, (int, float)) and not isinstance(e.value, bool):
+                return sp.nsimplify(e.value)
+            if isinstance(e, ast.Name):
+                if e.id == "self":
+                    return Vec(x)
+                if e.id in env:
+                    return env[e.id]
+                raise NU(e.id)
+            if isinstance(e, ast.BinOp) and type(e.op) in (ast.Add, ast.Sub, ast.Mult, ast.Div):
+                a, b = ev(e.left), ev(e.right)
+                f = {ast.Add: lambda p, q: p + q, ast.Sub: lambda p, q: p - q, ast.Mult: lambda p, q: p * q, ast.Div: lambda p, q: p / q}[type(e.op)]
+                if isinstance(a, Vec) and isinstance(b, Vec):
+                    return Vec(f(p, q) for p, q in zip(a, b))
+                if isinstance(a, Vec):
+                    return Vec(f(p, b) for p in a)
+                if isinstance(b, Vec):
+                    return Vec(f(a, q) for q in b)
+                return f(a, b)
+            if isinstance(e, ast.Call) and isinstance(e.func, ast.Attribute):
+                nm = e.func.attr
+                recv = ev(e.func.value)
+                args = list(e.args) + [k.value for k in e.keywords]
+                if not isinstance(recv, Vec):
+                    raise NU(src(e)[:40])
+                if nm == "weight":
+                    pw = ev(args[0]) if args else sp.Integer(1)
+                    return Vec(p * q ** pw for p, q in zip(recv, vol))
+                if nm in ("sum", "s_sum"):
+                    return sum(recv)
+                if nm in ("scalar_weight",):
+                    return w if uniform else None
+                if nm in ("total_volume",):
+                    return sum(vol)
+                if nm == "_contraction_helper" and e.args and isinstance(e.args[0], ast.Constant):
+                    op = e.args[0].value
+                    if op == "mean":
+                        return sum(recv) / 2
+                    if op == "sum":
+                        return sum(recv)
+                    raise NU(op)
+                if nm in F.methods and depth < 2 and nm in ("integrate", "s_integrate", "mean", "s_mean"):
+                    return run(F.methods[nm], uniform, depth + 1)
+                raise NU(src(e)[:40])
+            raise NU(src(e)[:40])
+
+        def truth(t):
+            if isinstance(t, ast.Compare) and len(t.ops) == 1 and src(t.comparators[0]) == "None":
+                a = ev(t.left)
+                isn = a is None
+                return isn if isinstance(t.ops[0], ast.Is) else not isn
+            raise NU(src(t)[:40])
+
+        def body(stmts):
+            for st in stmts:
+                if isinstance(st, ast.Expr):
+                    continue
+                if isinstance(st, ast.Assign) and isinstance(st.targets[0], ast.Name):
+                    env[st.targets[0].id] = ev(st.value)
+                elif isinstance(st, ast.If):
+                    r = body(st.body if truth(st.test) else st.orelse)
+                    if r is not NotImplemented:
+                        return r
+                elif isinstance(st, ast.Return):
+                    return ev(st.value)
+                else:
+                    raise NU(src(st)[:40])
+            return NotImplemented
+        r = body(fi.node.body)
+        if r is NotImplemented:
+            raise NU("no return")
+        return r
+    for name, want in (("integrate", lambda vol: vol[0] * x[0] + vol[1] * x[1]), ("s_integrate", lambda vol: vol[0] * x[0] + vol[1] * x[1]),
+                       ("mean", lambda vol: (vol[0] * x[0] + vol[1] * x[1]) / (vol[0] + vol[1])), ("s_mean", lambda vol: (vol[0] * x[0] + vol[1] * x[1]) / (vol[0] + vol[1]))):
+        fi = F.methods.get(name)
+        if fi is None:
+            ctx.und("R06.9", f"{F.key}::{name}", "method missing", F)
+            continue
+        ctx.saw_func(fi)
+        for uniform in (False, True):
+            key = f"{fi.key}::{'uniform volumes (shortcut)' if uniform else 'general volumes'}"
+            try:
+                got = run(fi, uniform)
+                exp = want((w, w) if uniform else v)
+                ctx.check("R06.9", key, sp.simplify(got - exp) == 0, f"reads as {sp.simplify(got)}; expected {sp.simplify(exp)}", fi)
+            except NU as exc:
+                ctx.und("R06.9", key, f"not understood: {exc}", fi)
+
+
+_run_c06b = run
+
+
+def run(ctx):  # noqa: F811
+    _run_c06b(ctx)
+    r06_9(ctx)
